@@ -134,7 +134,8 @@ def setup_recursive_safe_function(
                 _fn_name = fn_name.format(cls_name=tp.name)
             else:
                 _fn_name = (
-                    f'_load_{cls_name}_{tp_name}_{tp.field_i}' if is_generic
+                    # a field can contain more than one `Literal` or `Union`
+                    f'_load_{cls_name}_{tp_name}_{tp.field_i}_{len(recursion_guard)}' if is_generic
                     else f'_load_{cls_name}_{tp_name}_{tp.name}'
                 )
 
